@@ -545,8 +545,8 @@ func random(r *hx.Rand) json.RawMessage {
 		k = r.U64n(1 << 20)
 	default:
 		k = (^uint64(0) - in.Off) / rs
-		if k > 0 {
-			k -= r.U64n(2) % (k + 1)
+		if k > 0 && r.Bool() {
+			k--
 		}
 		if k > 0 {
 			k--
@@ -566,7 +566,7 @@ func random(r *hx.Rand) json.RawMessage {
 }
 
 func gen(r *hx.Rand, tier string) []json.RawMessage {
-	n := 1200
+	n := 900
 	if tier == "thorough" {
 		n = 12000
 	}
